@@ -254,6 +254,38 @@ def run_kani_unit(name, workdir, tier, prop):
         # `fn X` exists in one of the unit's source files it is extracted too and the harness is run again.
         auto_used = False
         for _round in range(3):
+            # a helper METHOD introduced by an edit: "no method named `x` found for .. `T`" and some `impl .. T` of a
+            # unit source file has `fn x`: include it wrapped in an inherent impl of T
+            mm = re.findall(r"no method named `([A-Za-z_]\w*)` found for (?:[a-z ]*reference )?(?:struct |enum )?`(?:&(?:mut )?)?([A-Za-z_]\w*)", und or "")
+            if und is not None and mm:
+                added_m = False
+                for nm, ty in sorted(set(mm)):
+                    for e in cfg.get("extract", []):
+                        pth = os.path.join(REPO, e["file"])
+                        if not os.path.exists(pth):
+                            continue
+                        txt = open(pth).read(); masked = rs.mask(txt)
+                        for it in rs.list_items(masked, 0, len(masked)):
+                            if it.kind != "impl" or not re.search(r"\b%s\b" % re.escape(ty), it.name) or it.body_open is None:
+                                continue
+                            for sub in rs.list_items(masked, it.body_open + 1, it.body_close):
+                                if sub.kind == "fn" and sub.name == nm:
+                                    text = txt[sub.start:sub.end]
+                                    for a, b in cfg.get("replace_all", []):
+                                        text = text.replace(a, b)
+                                    with _AUTO_LOCK:
+                                        tag = "%s::%s::%s" % (e["file"], ty, nm)
+                                        if tag not in out.setdefault("auto_included", []):
+                                            with open(os.path.join(dst, cfg["extract"][-1]["out"]), "a") as f:
+                                                f.write("\n// auto-included helper method (not listed in unit.json): %s\nimpl %s {\n%s\n}\n" % (tag, ty, text))
+                                            out["auto_included"].append(tag)
+                                    added_m = True
+                        if added_m:
+                            break
+                if added_m:
+                    auto_used = True
+                    entry, und = run_one_uncached(item)
+                    continue
             if und is None or "cannot find function" not in (und or ""):
                 break
             auto_used = True
